@@ -111,6 +111,11 @@ def term_value(term, x, inputs_row, mu=None):
             s = s + c * v
         return s + (co[n] if len(co) > n else 0.0)
     if cls == "Function":
+        ref = term.get("ref")
+        if ref and ref[0] == "lin":  # c1 * <input k> + c2
+            return float(ref[1]) * inputs_row[int(ref[3])] + float(ref[2])
+        if ref and ref[0] == "xmul":  # x * c
+            return x * float(ref[1])
         raise Undefined("Function terms are evaluated by refformula")
     return (mu or rm.mu)(term, x)
 
